@@ -116,25 +116,68 @@ def check(ctx):
               "T9-mark", mu, "MarkerUpdate: whenever the mark exists, mark.stamp is reset (no other condition)", "the mark must be set at every marker moment")
     nch = ctx.fn("needing", "NeedChange.action")
     N = FuncView(ctx, nch, exc="calls")
+    def truthy_out(W, n):
+        """node n makes the function's answer true: `result = True` / `return True`"""
+        a_ = n.ast
+        return (isinstance(a_, ast.Assign) and isinstance(a_.value, ast.Constant) and a_.value.value is True) or \
+            (n.kind == "return" and isinstance(a_.value, ast.Constant) and a_.value.value is True)
+
+    def compare_loop(W, data, shr):
+        """for field, value in <shr>.items(): getattr(<data>, field) != value => true; AttributeError => true; otherwise false"""
+        lp = [n for n in W.cfg.nodes if n.kind == "for" and src(n.ast.iter) == shr + ".items()"]
+        cmp_ = [t for t in W.cfg.nodes if t.kind == "test" and src(t.ast.test) == "getattr(%s, field) != value" % data]
+        hs = [h for h in W.cfg.nodes if h.kind == "except" and dotted(h.ast.type) == "AttributeError"]
+        outs = [n for n in W.cfg.nodes if truthy_out(W, n)]
+        okc = bool(lp) and bool(cmp_) and bool(hs)
+        okc = okc and any(W.dominated_by_edge([n], cmp_[0], "T") for n in outs)
+        okc = okc and any(n.id in W.cfg.reachable(hs[0].id) and cmp_[0].id not in W.cfg.reachable(hs[0].id, removed_nodes=[lp[0].id]) for n in outs)
+        # the default answer (no difference found) is false
+        falses = [n for n in W.cfg.nodes if (isinstance(n.ast, ast.Assign) and isinstance(n.ast.value, ast.Constant) and n.ast.value.value is False)
+                  or (n.kind == "return" and isinstance(n.ast.value, ast.Constant) and n.ast.value.value is False)]
+        return okc and bool(falses)
     t0 = N.tests(lambda t: src(t) == "mark.data is None")
-    tr_ = [n for n in N.stores("result") if isinstance(n.ast.value, ast.Constant) and n.ast.value.value is True]
+    tr_ = [n for n in N.cfg.nodes if truthy_out(N, n)]
     ok = bool(t0) and any(N.dominated_by_edge([n], t0[0], "T") for n in tr_)
-    cmp_ = N.tests(lambda t: src(t) == "getattr(mark.data, field) != value")
-    ok = ok and bool(cmp_) and any(N.dominated_by_edge([n], cmp_[0], "T") for n in tr_)
-    hs = [h for h in N.cfg.nodes if h.kind == "except" and dotted(h.ast.type) == "AttributeError"]
-    ok = ok and bool(hs) and any(n.id in N.cfg.reachable(hs[0].id) for n in tr_)
-    lp = [n for n in N.cfg.nodes if n.kind == "for" and call_name(n.ast.iter) == "share.items"]
-    ok = ok and bool(lp)
-    init = [n for n in N.stores("result") if isinstance(n.ast.value, ast.Constant) and n.ast.value.value is False]
-    ok = ok and len(init) == 1 and N.dominated([t0[0]], init)
+    ife = [x for x in ast.walk(nch) if isinstance(x, ast.IfExp) and src(x.test) == "mark.data is None"]
+    if not t0 and ife:
+        # conditional-expression spelling: `result = True if mark.data is None else <helper>(mark.data, share)`
+        x = ife[0]
+        ok = isinstance(x.body, ast.Constant) and x.body.value is True
+        okh = False
+        cls_ = ctx.cls("needing", "NeedChange")
+        c_ = x.orelse
+        if isinstance(c_, ast.Call) and isinstance(c_.func, ast.Attribute) and c_.func.attr in cls_.methods and \
+                [src(a_) for a_ in c_.args] == ["mark.data", "share"]:
+            h_ = cls_.methods[c_.func.attr]
+            ps = [a_.arg for a_ in h_.args.args if a_.arg not in ("self", "cls")]
+            okh = len(ps) == 2 and compare_loop(FuncView(ctx, h_, exc="calls"), ps[0], ps[1])
+            ctx.use(h_)
+        ok = ok and okh
+    elif compare_loop(N, "mark.data", "share"):
+        pass
+    else:
+        # the comparison delegated to a helper of the class, called with the snapshot and the share
+        okh = False
+        cls_ = ctx.cls("needing", "NeedChange")
+        for n_, c_ in [(n_, c_) for n_ in N.cfg.nodes for c_ in N.cfg.walk_node(n_) if isinstance(c_, ast.Call)]:
+            if isinstance(c_.func, ast.Attribute) and dotted(c_.func.value) in ("self", "NeedChange") and c_.func.attr in cls_.methods \
+                    and [src(a_) for a_ in c_.args] == ["mark.data", "share"] and t0 and N.dominated_by_edge([n_], t0[0], "F"):
+                h_ = cls_.methods[c_.func.attr]
+                ps = [a_.arg for a_ in h_.args.args if a_.arg not in ("self", "cls")]
+                if len(ps) == 2:
+                    okh = compare_loop(FuncView(ctx, h_, exc="calls"), ps[0], ps[1])
+                    ctx.use(h_)
+        ok = ok and okh
     ctx.check(ok, "T9-mark", nch, "NeedChange: True before first snapshot, on a differing field, or on an added field; else False",
               "`is changed` must be true exactly when some field differs from or was added since the snapshot")
     nup = ctx.fn("needing", "NeedUpdate.action")
     U = FuncView(ctx, nup)
-    g = U.tests(lambda t: src(t) == "mark and share.stamp is not None")
-    rs_ = [n for n in U.stores("result") if not isinstance(n.ast.value, ast.Constant)]
+    from ..rules import truth_formula, formula_equiv, formula_of
     want = "mark.stamp is None or share.stamp > mark.stamp or (share.stamp == mark.stamp and mark.used != mark.stamp)"
-    ok = bool(g) and len(rs_) == 1 and src(rs_[0].ast.value) == want and U.dominated_by_edge(rs_, g[0], "T")
+    # when does NeedUpdate.action answer true?  (by value: locals that carry share.stamp / mark.stamp are read through)
+    tf = truth_formula(U)
+    MK = "share.marks.get(marker)"
+    ok = formula_equiv(tf, ("mark and share.stamp is not None and (%s)" % want).replace("mark.", MK + ".").replace("mark and", MK + " and"))
     ctx.check(ok, "T9-mark", nup, "NeedUpdate: result = %s (only if the share was ever stamped)" % want,
               "before the mark is first set any update counts; afterwards only updates after the mark, or at the mark's own "
               "stamp when the mark was not consumed by a taken transition")
